@@ -144,7 +144,7 @@ def cfg_str(kind, cfg):
             s += f",dtype={cfg['dtype']}"
         return s
     if kind == "exponential_baseline":
-        return f"beta={cfg['beta']:g}"
+        return f"beta={cfg['beta']:g}" + (f",by_name={cfg['factory']}" if cfg.get("factory") else "")
     return f"inner={cfg['inner']},n_epochs={cfg['n_epochs']},warmup_beta={cfg['warmup_exp_beta']:g}"
 
 
@@ -163,6 +163,10 @@ def configs(tier):
         out.append(("reward_scaler", dict(scale="scale", dtype="float64"), 3))
     for beta in ([0.0, 0.5, 0.8] if quick else [0.0, 0.5, 0.8, 0.95]):
         out.append(("exponential_baseline", dict(beta=beta), 4 if quick else 5))
+    out.append(("exponential_baseline", dict(beta=0.0, factory="mean"), 4 if quick else 5))
+    out.append(("exponential_baseline", dict(beta=0.5, factory="exponential"), 3 if quick else 4))
+    for m in ("AttentionModel", "MDAM", "PointerNetwork"):
+        out.append(("exponential_baseline", dict(beta=0.5, factory=f"model:{m}"), 3))
     for inner in ("stub", "exp"):
         for n in (1, 2, 4):
             for wb in ([0.8] if quick else [0.8, 0.5]):
@@ -371,7 +375,18 @@ def _td_for(b):
 def run_exp(cfg, batches, first_new=0, outcomes=None):
     beta = float(cfg["beta"])
     fb = Fraction(beta)
-    bl = ExponentialBaseline(beta=beta)
+    if cfg.get("factory") == "mean":
+        bl = get_reinforce_baseline("mean")  # documented as the EMA recurrence with beta = 0: the current batch mean
+    elif cfg.get("factory") == "exponential":
+        bl = get_reinforce_baseline("exponential", beta=beta)
+    elif str(cfg.get("factory", "")).startswith("model:"):
+        # the way users configure it: <ZooModel>(env, baseline="exponential", baseline_kwargs={"beta": ...})
+        import rl4co.models.zoo as zoo
+        from rl4co.envs import TSPEnv
+
+        bl = getattr(zoo, cfg["factory"][6:])(TSPEnv(generator_params=dict(num_loc=5)), baseline="exponential", baseline_kwargs=dict(beta=beta), policy_kwargs=dict(embed_dim=16, num_encoder_layers=1, num_heads=2) if cfg["factory"][6:] != "PointerNetwork" else {}).baseline
+    else:
+        bl = ExponentialBaseline(beta=beta)
     probs = []
     v = None
     mx = 0.0
